@@ -76,6 +76,13 @@ impl TypedValueParser for PathParser {
         _arg: Option<&Arg>,
         value: &OsStr,
     ) -> Result<Self::Value, Error> {
+        // an empty string would be taken for the current directory
+        if value.is_empty() {
+            return Err(Error::raw(
+                clap::error::ErrorKind::InvalidValue,
+                "a path must not be empty\n",
+            ));
+        }
         Ok(Path::from(value))
     }
 }
